@@ -112,6 +112,14 @@ impl Path {
     pub fn is_dir(&self, Tracked(w): Tracked<&World>) -> (r: bool)
         ensures r == is_dir_m(w.paths, self.key()),
     { unimplemented!() }
+    #[verifier::external_body]
+    pub fn is_file(&self, Tracked(w): Tracked<&World>) -> (r: bool)
+        ensures r == (exists_m(w.paths, self.key()) && w.paths[self.key()].tkind == NodeKind::File),
+    { unimplemented!() }
+    #[verifier::external_body]
+    pub fn is_symlink(&self, Tracked(w): Tracked<&World>) -> (r: bool)
+        ensures r == (w.paths.contains_key(self.key()) && w.paths[self.key()].kind == NodeKind::Symlink),
+    { unimplemented!() }
 }
 
 impl File {
